@@ -183,7 +183,7 @@ impl File {
 pub mod fs {
     use super::*;
     pub use super::fs_filetype::FileType;
-    pub use super::fs_more::{metadata, symlink_metadata, create_dir, set_permissions};
+    pub use super::fs_more::{metadata, symlink_metadata, create_dir, set_permissions, hard_link, remove_dir, remove_dir_all, copy};
     pub use super::{remove_file, create_dir_all, read_link, canonicalize, File, Permissions, OpenOptions};
     /// rename(2): the *entry* moves: every spelling of the old entry stops resolving, `b` now designates the object; inodes and contents untouched.
     /// (Two spellings of one entry necessarily reach the same inode.)
@@ -264,9 +264,12 @@ pub fn create_dir_all(p: &Path, Tracked(w): Tracked<&mut World>) -> (r: std::res
 { unimplemented!() }
 
 #[verifier::external_body]
-pub fn read_link(p: Path, Tracked(w): Tracked<&mut World>) -> (r: std::result::Result<Path, io::Error>)
-    ensures fr_ro(*old(w), *final(w)), final(w).faults == old(w).faults + (if r is Err { 1nat } else { 0 }),
-        r is Ok ==> old(w).paths.contains_key(p.key()) && old(w).paths[p.key()].kind == NodeKind::Symlink && r->Ok_0.key() == old(w).paths[p.key()].link,
+pub fn read_link<P: PathLike>(p: P, Tracked(w): Tracked<&mut World>) -> (r: std::result::Result<Path, io::Error>)
+    // ENOENT (nothing there) and EINVAL (not a link) are answers, not faults: the same rule as for stat/lstat
+    ensures fr_ro(*old(w), *final(w)),
+        final(w).faults == old(w).faults + (if r is Err && old(w).paths.contains_key(p.pkey()) && old(w).paths[p.pkey()].kind == NodeKind::Symlink { 1nat } else { 0 }),
+        !(old(w).paths.contains_key(p.pkey()) && old(w).paths[p.pkey()].kind == NodeKind::Symlink) ==> r is Err,
+        r is Ok ==> old(w).paths.contains_key(p.pkey()) && old(w).paths[p.pkey()].kind == NodeKind::Symlink && r->Ok_0.key() == old(w).paths[p.pkey()].link,
 { unimplemented!() }
 
 /// realpath(3): the result designates the object the links lead to, and is not itself a link
